@@ -36,6 +36,10 @@ type Case struct {
 	// level.  OwnPfx: typedef names are referred to with the module's own prefix (which changes nothing).
 	Scope  int  `json:"scope,omitempty"`
 	OwnPfx bool `json:"own_prefix,omitempty"`
+	// Split k > 0: the first k typedefs of the chain are written in an imported module "mb", under the names the NEXT
+	// typedefs have, so that m0's first own typedef extends the imported typedef of its own name
+	// ("typedef t2 { type mb:t2 { ... } }"): the prefix decides which typedef is meant
+	Split int `json:"split,omitempty"`
 }
 
 var patternPool = []string{"(ab+)|(cd+)", "([0-9]+)|(none)", "[a-z]+", "[a-z0-9]*", "a.*", ".*z", "(ab|cd)+", "[^x]*", "a|b", ".{2,6}"}
@@ -213,6 +217,7 @@ func genCase(t *rapid.T) Case {
 	}
 	c.Scope = []int{0, 0, 1, 2}[g.pick(4, "scope")]
 	c.OwnPfx = g.pick(3, "ownpfx") == 0
+	splitWish := g.pick(3, "split") == 0
 	sp := baseSpace(c)
 	if c.Base == "decimal64" {
 		// stay far below 2^53 scaled units: exactness of 64-bit decimal64 bounds is C16's business
@@ -314,6 +319,9 @@ func genCase(t *rapid.T) Case {
 			c.Probes = append(c.Probes, fmtScaled(big.NewInt(int64(rapid.IntRange(-300, 300).Draw(t, "iprobe"))), c.FD))
 		}
 	}
+	if splitWish && fixedBases[c.Base] == nil && len(c.Chain) >= 2 {
+		c.Split = 1 + g.pick(len(c.Chain)-1, "splitat")
+	}
 	return c
 }
 
@@ -392,8 +400,13 @@ func typeSpec(name string, l Level, fd int, withFD bool) *sg.TypeSpec {
 	return t
 }
 
-func build(c Case) *sg.Mod {
+func build(c Case) []*sg.Mod {
 	m := &sg.Mod{Name: "m0", Prefix: "m0"}
+	var mb *sg.Mod
+	if c.Split > 0 {
+		mb = &sg.Mod{Name: "mb", Prefix: "mb", Nodes: []*sg.Node{{Kind: "container", Name: "mb-top"}}}
+		m.Imports = []sg.Import{{Mod: "mb", Prefix: "mb"}}
+	}
 	var tds []*sg.Typedef
 	ref := func(name string) string {
 		if c.OwnPfx && vt.Builtin(name, 1) == nil && name != "enumeration" && name != "union" {
@@ -417,7 +430,16 @@ func build(c Case) *sg.Mod {
 	}
 	for i, l := range c.Chain {
 		name := fmt.Sprintf("t%d", i)
-		tds = append(tds, &sg.Typedef{Name: name, Type: typeSpec(ref(prev), l, c.FD, prev == "decimal64"), Default: l.Default})
+		switch {
+		case mb != nil && i < c.Split:
+			// in mb, one name further up
+			name = fmt.Sprintf("t%d", i+1)
+			mb.Typedefs = append(mb.Typedefs, &sg.Typedef{Name: name, Type: typeSpec(prev, l, c.FD, prev == "decimal64"), Default: l.Default})
+		case mb != nil && i == c.Split:
+			tds = append(tds, &sg.Typedef{Name: name, Type: typeSpec("mb:"+prev, l, c.FD, false), Default: l.Default})
+		default:
+			tds = append(tds, &sg.Typedef{Name: name, Type: typeSpec(ref(prev), l, c.FD, prev == "decimal64"), Default: l.Default})
+		}
 		prev = name
 	}
 	top := &sg.Node{Kind: "container", Name: "m0-top"}
@@ -435,13 +457,19 @@ func build(c Case) *sg.Mod {
 		m.Typedefs = tds
 	}
 	m.Nodes = []*sg.Node{top}
-	return m
+	if mb != nil {
+		return []*sg.Mod{mb, m}
+	}
+	return []*sg.Mod{m}
 }
 
 func checkCase(c Case) fw.Outcome {
 	out := fw.Outcome{}
-	m := build(c)
-	src := m.Text()
+	ms := build(c)
+	src := ""
+	for _, x := range ms {
+		src += x.Text()
+	}
 	out.Key = src
 	out.Labels = append(out.Labels, "base:"+c.Base, fmt.Sprintf("depth:%d", len(c.Chain)))
 	// reference: spaces per level and expected verdict
@@ -494,7 +522,7 @@ func checkCase(c Case) fw.Outcome {
 		}
 	}
 	out.NonTrivial = len(c.Chain) >= 2 && nrestr >= 2
-	res := sgc.Compile([]*sg.Mod{m}, sgc.Opts{Features: sgc.AllFeatures{}})
+	res := sgc.Compile(ms, sgc.Opts{Features: sgc.AllFeatures{}})
 	if res.Hang || res.Panic != "" || (res.ParseErr && refuse == nil) {
 		out.Violation = fmt.Sprintf("%s\n%s", res.Describe(), src)
 		return out
